@@ -39,6 +39,8 @@ def weights(N, cfgname, poly_key_atoms=None):
             a, b = dict(k[2]), dict(k[3])
             wa, wb = poly_weight(a), poly_weight(b)
             r = wa if wa == wb else None
+        elif k[0] == "ind":
+            r = 0          # indicator of a condition: a 0/1 value
         elif k[0] == "inv":
             wi = poly_weight(dict(k[1]))
             r = -wi if wi is not None else None
@@ -87,7 +89,9 @@ def sign_args(N, poly, acc=None, seen=None):
                     continue
                 seen.add(a)
                 k = N.atom_desc[a]
-                if k[0] == "ite":
+                if k[0] == "ind":
+                    from_cond(k[1])
+                elif k[0] == "ite":
                     from_cond(k[1])
                     walk_poly(dict(k[2]))
                     walk_poly(dict(k[3]))
